@@ -347,6 +347,14 @@ impl Prop for C04 {
                             futures::future::pending::<()>().await;
                         }
                     }
+                    // the stream ended on this side; the sender may still be inside its last
+                    // call: let it return (or run into the horizon) before the run is judged
+                    loop {
+                        if world.lock().unwrap().sender_done {
+                            break;
+                        }
+                        tokio::time::sleep(Duration::from_millis(10)).await;
+                    }
                     h.stop();
                 });
             }
